@@ -38,6 +38,7 @@ func fnDiscard(ctx *cmdContext, args map[string]any) (output respValue, err erro
 	// clear out watch map and discard multi command queue
 	ctx.cs.watches = map[watchKey]uint64{}
 	ctx.cs.cmdQueue = nil
+	ctx.cs.cmdQueueError = false
 	output.data = rstrOK
 	return
 }
@@ -58,6 +59,15 @@ func fnExec(ctx *cmdContext, args map[string]any) (output respValue, err error) 
 		return
 	}
 
+	if ctx.cs.cmdQueueError {
+		// a command was rejected while queueing: nothing runs, the transaction ends
+		ctx.cs.watches = map[watchKey]uint64{}
+		ctx.cs.cmdQueue = nil
+		ctx.cs.cmdQueueError = false
+		output.data = respErrorString("EXECABORT Transaction discarded because of previous errors.")
+		return
+	}
+
 	// take complete ownership of the data store
 	ctx.dsc.acquireExclusive()
 	defer ctx.dsc.releaseExclusive()
@@ -68,6 +78,9 @@ func fnExec(ctx *cmdContext, args map[string]any) (output respValue, err error) 
 
 	// check the watches; if anything has changed, return null
 	if isAbortedExecUnlocked(ctx.cs) {
+		// the transaction is over either way: back to normal mode, nothing watched
+		ctx.cs.watches = map[watchKey]uint64{}
+		ctx.cs.cmdQueue = nil
 		return
 	}
 
